@@ -3,6 +3,7 @@ This module contains the implementation for the SNMPv3 message-processing model
 """
 
 import time
+from dataclasses import replace
 from typing import Any, Awaitable, Callable, Dict, Optional, Union
 
 from x690.types import Integer, OctetString
@@ -16,7 +17,7 @@ from puresnmp.adt import (
     V3Flags,
 )
 from puresnmp.credentials import V3, Credentials
-from puresnmp.exc import EngineOutOfSync
+from puresnmp.exc import NotInTimeWindow
 from puresnmp.pdu import (
     PDU,
     BulkGetRequest,
@@ -78,11 +79,23 @@ class V3MPM(MessageProcessingModel[V3EncodingResult, TV3SecModel]):
             msg = self.security_model.process_incoming_message(
                 message, credentials
             )
-        except EngineOutOfSync:
-            # Our notion of the remote engine (id, boots, time) is outdated
-            # (f.ex. because the device rebooted) or was wrong to begin with.
-            # Forget it so that the next request runs the discovery again.
-            self.disco = None
+        except NotInTimeWindow as exc:
+            # Our notion of the remote engine boots/time is outdated (f.ex.
+            # because the device rebooted). The report told us the current
+            # values, so the next request can use them.
+            if (
+                self.disco is not None
+                and isinstance(exc.engine_boots, int)
+                and isinstance(exc.engine_time, int)
+            ):
+                self.disco = replace(
+                    self.disco,
+                    authoritative_engine_boots=exc.engine_boots,
+                    authoritative_engine_time=exc.engine_time,
+                )
+                self.disco_timestamp = time.monotonic()
+            else:
+                self.disco = None
             raise
         return msg.scoped_pdu.data
 
